@@ -153,6 +153,7 @@ def judge(ctx, L, refs, cases, label="trace"):
         if ei <= 0 or ei >= len(case["events"]):
             raise core.Infra("trace rejected at a reset line (%d): the harness' own cfg is inconsistent\n%s" % (hwm, r.stdout[-2000:]))
         report(ctx, L, refs, case, ei)
+        case["rejected"] = True
         rejected += 1
         rest = rest[ci + 1:]
         if case["kind"] == "fresh-process":     # the other runs of this design are compared with the same reference: one witness is enough
@@ -278,7 +279,7 @@ def run(ctx):
         events, snaps = L.inproc(refs, d, cids, 2)
         return {"kind": "in-process", "pair": [d], "events": events, "snaps": snaps, "strays": [], "design": d}
     with cf.ThreadPoolExecutor(max_workers=4) as ex:
-        cases += list(ex.map(doin, det_designs))
+        cases += list(ex.map(doin, ["types"] if quick else designs))
     # ---------------------------------------------------------------- verdicts
     nontriv = set()
     # (G) projection of TLC's histories
@@ -289,6 +290,7 @@ def run(ctx):
         if nontrivial(c["hist"]):
             nontriv.add(core.canon([c["pair"], c["ops"]]))
         if diffs:
+            c["projection_diffs"] = True
             i, ap, what = diffs[0]
             ev = c["events"][i]
             d2 = lab.explain(refs, c["pair"], c["snaps"][i - 1], c["snaps"][i], ev) if ev["ev"] in ("gen", "example") else []
@@ -322,7 +324,7 @@ def run(ctx):
 def selftest(ctx, cases):
     """Binding demonstrated: one content class / one stamp / one path of an accepted trace is changed and TLC must
     reject the trace at exactly that line."""
-    good = [c for c in cases if c["kind"] in ("tlc-history", "fresh-process")][:3]
+    good = [c for c in cases if c["kind"] in ("tlc-history", "fresh-process") and not c.get("rejected") and not c.get("projection_diffs")][:3]
     if not good:
         return
     for what in ("content", "stamp", "extra-path", "missing-path"):
@@ -351,14 +353,18 @@ def replay(ctx, rp):
     L = lab.Lab(ctx)
     pair = case["pair"]
     refs = L.references(list(dict.fromkeys(pair)))
-    cids = lab.Cids()
-    if case.get("kind") == "in-process":
-        events, snaps = L.inproc(refs, pair[0], cids, 2)
-    else:
-        events, snaps = L.replay(refs, pair, case["ops"], cids, case["strays"], envs=case.get("envs"), depth=case.get("depth", 0))
-    c = {"kind": case.get("kind", "replay"), "events": events, "snaps": snaps, "strays": case["strays"], "pair": pair}
-    p, _, n = write_trace(ctx, [c], "replay")
-    ok, hwm, _ = ctx.trace_validate("trace/Trace_GenHistory", "trace/Trace_GenHistory.cfg", p, label="replay")
+    # a fresh-process case shows a difference between two processes: it may take a few processes to show again
+    for attempt in range(5 if case.get("kind") == "fresh-process" else 1):
+        cids = lab.Cids()
+        if case.get("kind") == "in-process":
+            events, snaps = L.inproc(refs, pair[0], cids, 2)
+        else:
+            events, snaps = L.replay(refs, pair, case["ops"], cids, case["strays"], envs=case.get("envs"), depth=case.get("depth", 0))
+        c = {"kind": case.get("kind", "replay"), "events": events, "snaps": snaps, "strays": case["strays"], "pair": pair}
+        p, _, n = write_trace(ctx, [c], "replay")
+        ok, hwm, _ = ctx.trace_validate("trace/Trace_GenHistory", "trace/Trace_GenHistory.cfg", p, label="replay")
+        if not ok:
+            break
     for i, e in enumerate(events[1:], 1):
         print("%d. %-8s %-40s -> %d files%s" % (i, e["ev"] + ("*" if e.get("same") else ""), e.get("p") and "/".join(e["p"]) or pair[e["d"] - 1], len(e["tree"]),
                                                "" if e.get("rc", 0) == 0 else "  (exit %d)" % e["rc"]))
